@@ -173,7 +173,8 @@ impl<F: FixedChannelRegion> RegionHandler for FixedChannelPlan<F> {
     }
 
     fn get_datarate(&self, dr: u8) -> Option<&Datarate> {
-        F::datarates()[dr as usize].as_ref()
+        // `dr` can be any 4-bit value taken from a received frame; DR15 is beyond the table.
+        F::datarates().get(dr as usize).and_then(|d| d.as_ref())
     }
 
     fn select_tx_channel<RNG: RngCore>(
